@@ -127,6 +127,7 @@ def r2(ctx, fs):
             ctx.finding(rid, f.id, 'return', 'solve_inconsistencies must only leave through the loop condition (or by throwing unsolvable)', node=rets[0])
     f = fs.fn('ratio::solver::get_incs')
     env = LocalEnv(f)
+    env.local_role('incs', lambda n, i: n.get('t') == 'std::vector<std::vector<std::pair<smt::lit, double>>>')      # the (non-const) result being accumulated
     ok = False
     for n in f.nodes():
         if n.get('k') == 'CXXForRangeStmt' and canon(n['slots']['range'], env, subst=False) == 'ratio::solver::sts':
